@@ -69,6 +69,8 @@ func main() {
 	glueCampaign(r, nil)
 	svcCampaign(o, r, m)
 	endsCampaign(r)
+	wiredCampaign(o, r, m)
+	libsCampaign(o, r)
 
 	r.Finish()
 }
@@ -2137,6 +2139,8 @@ func replay(o *hlib.Opts, r *hlib.Result, m *hlib.Model) {
 			Glue     *glueCase  `json:"glue"`
 			Svc      *svcCase   `json:"svc"`
 			Ends     *endsCase  `json:"ends"`
+			Wired    *wiredCase `json:"wired"`
+			Libs     *libCase   `json:"libs"`
 		} `json:"replay"`
 	}
 	hlib.Must(json.Unmarshal(b, &f))
@@ -2159,6 +2163,10 @@ func replay(o *hlib.Opts, r *hlib.Result, m *hlib.Model) {
 		runSvcCase(r, m, f.Replay.Svc)
 	case "ends":
 		runEndsCase(r, f.Replay.Ends)
+	case "wired":
+		runWiredCase(r, m, f.Replay.Wired)
+	case "libs":
+		runLibCase(r, f.Replay.Libs)
 	default:
 		concurrentCloseCampaign(o, r)
 	}
